@@ -244,7 +244,7 @@ class CouplingGraph(Collection[tuple[int, int]]):
         for qpu, qudits in enumerate(qpu_to_qudit):
             for qudit in qudits:
                 qudit_to_qpu[qudit] = qpu
-        return list(qudit_to_qpu.values())
+        return [qudit_to_qpu[qudit] for qudit in range(self.num_qudits)]
 
     def get_qpu_connectivity(self) -> list[set[int]]:
         """Return the adjacency list of the QPUs."""
@@ -509,7 +509,7 @@ class CouplingGraph(Collection[tuple[int, int]]):
         curr_path.add(vertex)
 
         if len(curr_path) == limit:
-            locations.add(CircuitLocation(list(curr_path)))
+            locations.add(CircuitLocation(sorted(curr_path)))
             return
 
         frontier: set[int] = {
